@@ -208,6 +208,7 @@ func ruleTaintAlloc(r *Run) {
 		r.Analysed(fn, len(paths))
 		for pi := range paths {
 			path := &paths[pi]
+			r.at(path)
 			bounded := map[types.Object]bool{}
 			for _, ev := range path.Events {
 				if ev.Kind == EvGuard && ev.Cond != nil {
